@@ -313,6 +313,12 @@ type c10OwnerTest struct {
 
 // c10OwnerTests extracts owner comparisons from a fact set.
 func c10OwnerTests(facts []eng.Fact, sp c10OwnerSpec) []c10OwnerTest {
+	return c10OwnerTestsIn(facts, facts, sp)
+}
+
+// c10OwnerTestsIn extracts the owner comparisons stated by facts; whether the lookup's ok
+// flag is known true is looked up in okFacts (the facts of all guards of the site).
+func c10OwnerTestsIn(facts, okFacts []eng.Fact, sp c10OwnerSpec) []c10OwnerTest {
 	var out []c10OwnerTest
 	for _, f := range facts {
 		if f.Rel.Op != token.EQL && f.Rel.Op != token.NEQ {
@@ -331,7 +337,7 @@ func c10OwnerTests(facts []eng.Fact, sp c10OwnerSpec) []c10OwnerTest {
 			t := c10OwnerTest{lookup: cc, env: benv, op: f.Rel.Op}
 			t.key, _ = benv.Resolve(eng.Args(cc)[0])
 			t.acting, _ = f.Env.Resolve(side[1])
-			for _, g := range facts {
+			for _, g := range okFacts {
 				for _, gs := range [][2]ssa.Value{{g.Rel.X, g.Rel.Y}, {g.Rel.Y, g.Rel.X}} {
 					gv, _ := g.Env.Resolve(gs[0])
 					c2, i2 := eng.CallResultOf(gv)
@@ -352,12 +358,33 @@ func c10OwnerTests(facts []eng.Fact, sp c10OwnerSpec) []c10OwnerTest {
 // c10CheckOwnerGuard is the template of C10.R2 for deletions: the site, which removes
 // `key` from the table, must execute only when a lookup of that same key succeeded and the
 // entry found belongs to the acting cluster (`entry.owner == acting`, acting being neither
-// the key nor read from the entry itself). It returns the acting operand for R2n.
-func c10CheckOwnerGuard(site ssa.Instruction, key ssa.Value, sp c10OwnerSpec, sl *eng.Slicer) (bool, string, ssa.Value) {
-	tests := c10OwnerTests(eng.FactsAt(site, 2), sp)
+// the key nor read from the entry itself). It returns the acting operands for R2n.
+//
+// The test may sit anywhere on the way to the deletion: in the deleting function, in a
+// predicate helper it calls (FactsAt expands those), or — when the deletion was moved into a
+// helper whose callers are all known — at the call sites of that helper. Every calling
+// context (eng.FactsAtUp) must provide the test; keys and operands of different levels are
+// related through the parameter bindings of the context.
+func c10CheckOwnerGuard(site ssa.Instruction, key ssa.Value, sp c10OwnerSpec, sl *eng.Slicer) (bool, string, []ssa.Value) {
+	var acting []ssa.Value
+	for _, fc := range eng.FactsAtUp(site, 2) {
+		ok, why, act := c10OwnerGuardIn(fc, key, sp, sl)
+		if !ok {
+			return false, why, nil
+		}
+		acting = append(acting, act)
+	}
+	return true, "", acting
+}
+
+// c10OwnerGuardIn decides the owner-guard template in one calling context.
+func c10OwnerGuardIn(fc eng.FactCtx, key ssa.Value, sp c10OwnerSpec, sl *eng.Slicer) (bool, string, ssa.Value) {
+	ch := fc.Chain
+	tests := c10OwnerTests(fc.Facts, sp)
 	if len(tests) == 0 {
 		return false, "the deletion is not control-dependent on an owner test `lookup(key).Cluster == acting cluster`: a name held by another cluster is removed from the table (history: A owns alias x, B is updated/deleted with a stale x in its old list ⇒ x stops resolving to A)", nil
 	}
+	same := func(a, b ssa.Value) bool { return eng.SameValue(ch.Resolve(a), ch.Resolve(b)) }
 	why := ""
 	for _, t := range tests {
 		switch {
@@ -365,13 +392,13 @@ func c10CheckOwnerGuard(site ssa.Instruction, key ssa.Value, sp c10OwnerSpec, sl
 			why = "the deletion runs when the entry's owner DIFFERS from the acting cluster (inverted owner test)"
 		case !t.okGuard:
 			why = "the owner is read from a lookup result whose ok flag is not known to be true"
-		case !eng.SameValue(t.key, key):
+		case !same(t.key, key):
 			why = "the owner test looks up a different key than the one deleted (the entry that is removed is not the one whose owner was checked)"
-		case eng.SameValue(t.acting, key):
+		case same(t.acting, key):
 			why = "the entry's owner is compared with the deleted key itself, not with the acting cluster (only the cluster's own name could ever be removed; its aliases keep resolving after deletion)"
-		case sl.DerivesFrom(t.acting, func(v ssa.Value) bool { cc, _ := eng.CallResultOf(v); return cc == t.lookup }):
+		case ch.DerivesFrom(sl, t.acting, func(v ssa.Value) bool { cc, _ := eng.CallResultOf(v); return cc == t.lookup }):
 			why = "the entry's owner is compared with a value read from the same lookup (vacuous owner test)"
-		case sl.DerivesFrom(t.acting, func(v ssa.Value) bool {
+		case ch.DerivesFrom(sl, t.acting, func(v ssa.Value) bool {
 			cc, _ := eng.CallResultOf(v)
 			return cc != nil && sp.isLookup(cc)
 		}):
@@ -389,7 +416,7 @@ func c10(c *eng.Ctx) {
 	x := &c10x{c: c, sl: c.Slicer(), sa: c.Slicer().WithArgs(), ord: map[string]int{}}
 
 	c.Rule("R1", "key normalisation of the name table: every keyed access (Load/Store/LoadAndDelete/…) of manager.clusters uses a key that is strings.ToLower of the method's own key parameter; otherwise `Host: API.Example.com` does not resolve to the cluster registered as api.example.com (or an entry stored under one case is never deleted under another)", 3)
-	c.Rule("R1h", "hosts are normalised before lookup: every argument of Manager.Get outside pkg/clusters is a port-stripped host (HostWithoutPort, ExtraRequestInfo.Hostname, TLS ServerName, host part of SplitHostPort) or a cluster/server name; ExtraRequestInfo.Hostname is only ever HostWithoutPort(req.Host); HostWithoutPort returns the host part. A raw `req.Host` (\"api:6443\") would never match a table key", 12)
+	c.Rule("R1h", "hosts are normalised before lookup: every argument of Manager.Get outside pkg/clusters is a port-stripped host (HostWithoutPort, ExtraRequestInfo.Hostname, TLS ServerName, host part of SplitHostPort) or a cluster/server name; ExtraRequestInfo.Hostname is only ever HostWithoutPort(req.Host); HostWithoutPort returns the host part. A raw `req.Host` (\"api:6443\") would never match a table key", 11)
 	c.Rule("R2", "ownership guards in the controller: every Manager.Delete/DeleteWithStop executes only if a lookup of the same key succeeded and entry.Cluster == acting cluster; every Manager.AddWithKey executes only after a conflict check returned nil, the check tests every name of a list containing the inserted key against the owner of the inserted cluster, and its conflict edge always returns an error. Violations let create/update/delete of one cluster capture or remove a name of another", 6)
 	c.Rule("R2n", "owner comparisons compare lower-cased names: the acting-cluster operand of every owner test derives, on every static call path, from strings.ToLower, ClusterInfo.Cluster or LoadServerNames(); ClusterInfo.Cluster is only stored lower-cased and LoadServerNames returns only lower-cased names. Otherwise a cluster named `Prod` never owns its own entries: they are neither updated nor removed", 5)
 	c.Rule("R3", "single writer: the methods that mutate manager.clusters (Add/AddWithKey/Delete/DeleteWithStop/DeleteAll and their helpers) are called only from UpstreamClusterController methods and from the manager itself; request filters, the dispatcher and webhooks only read", 9)
@@ -566,31 +593,31 @@ func (x *c10x) conflictSummary(fn *ssa.Function, sp c10OwnerSpec) *c10Conflict {
 		if !ok || len(r.Results) != 1 || eng.IsNilConst(r.Results[0]) {
 			return
 		}
+		all := eng.ExpandTupleFacts(eng.FactsAt(r, 2), 2)
 		for _, g := range eng.GuardsOf(r) {
-			rel := g.Rel()
-			if rel.Op != token.NEQ {
-				continue
-			}
-			for _, side := range [][2]ssa.Value{{rel.X, rel.Y}, {rel.Y, rel.X}} {
-				base := sp.ownerBase(side[0])
-				p, isP := side[1].(*ssa.Parameter)
-				if base == nil || !isP || p.Parent() != fn {
+			// the guard that states `entry.Cluster != acting` — as a comparison of its own, as
+			// the last operand of `ok && …`, or through a predicate helper (ImpliedFacts)
+			for _, t := range c10OwnerTestsIn(eng.ExpandTupleFacts(eng.ImpliedFacts(g.If.Cond, g.Branch, 2), 2), all, sp) {
+				p, isP := t.acting.(*ssa.Parameter)
+				if t.op != token.NEQ || !t.okGuard || !isP || p.Parent() != fn {
 					continue
 				}
-				G, idx := eng.CallResultOf(base)
-				if G == nil || idx != 0 || !sp.isLookup(G) || G.Parent() != fn || len(eng.Args(G)) != 1 {
-					continue
+				// the instruction of fn that performs the lookup: the lookup itself or the call
+				// of the predicate helper that holds it
+				var site ssa.Instruction = t.lookup
+				for e := t.env; e != nil; e = e.Parent {
+					site = e.Call
 				}
-				if !eng.GuardedByBool(r, func(v ssa.Value) bool { c2, i2 := eng.CallResultOf(v); return c2 == G && i2 == 1 }, true) {
+				if site.Parent() != fn {
 					continue
 				}
 				s.clusterParam = c10ParamIndex(p)
 				// which list does the looked-up name range over, and is the test unconditional?
 				for j, lp := range fn.Params {
-					if !c10IsStringSlice(lp.Type()) || !x.sl.DerivesFrom(eng.Args(G)[0], func(v ssa.Value) bool { return v == ssa.Value(lp) }) {
+					if !c10IsStringSlice(lp.Type()) || !x.sl.DerivesFrom(t.key, func(v ssa.Value) bool { return v == ssa.Value(lp) }) {
 						continue
 					}
-					s.lists[j] = s.lists[j] || c10TestsEveryElement(fn, G, lp)
+					s.lists[j] = s.lists[j] || c10TestsEveryElement(fn, site, lp)
 				}
 				// the conflict edge must end in an error on every path
 				succ := g.If.Block().Succs[1]
@@ -601,7 +628,7 @@ func (x *c10x) conflictSummary(fn *ssa.Function, sp c10OwnerSpec) *c10Conflict {
 					if rr, isR := i.(*ssa.Return); isR && len(rr.Results) == 1 && eng.IsNilConst(rr.Results[0]) {
 						return true
 					}
-					return i == ssa.Instruction(G)
+					return i == site
 				}}); bad != nil {
 					s.edgeErrors = false
 					s.why = "after finding a name held by another cluster the check can still return nil or go on"
@@ -616,7 +643,7 @@ func (x *c10x) conflictSummary(fn *ssa.Function, sp c10OwnerSpec) *c10Conflict {
 // path of fn that returns nil: G sits in a loop bounded by `i < len(list)`, every iteration
 // passes G before it continues or leaves, and every nil return is reached through the loop
 // header — except through the "nothing changed" shortcut reflect.DeepEqual(old, new).
-func c10TestsEveryElement(fn *ssa.Function, G *ssa.Call, list ssa.Value) bool {
+func c10TestsEveryElement(fn *ssa.Function, G ssa.Instruction, list ssa.Value) bool {
 	isLen := func(v ssa.Value) bool {
 		cc, ok := v.(*ssa.Call)
 		return ok && c10IsBuiltin(cc, "len") && cc.Call.Args[0] == list
@@ -640,7 +667,7 @@ func c10TestsEveryElement(fn *ssa.Function, G *ssa.Call, list ssa.Value) bool {
 	// every iteration performs the lookup
 	if eng.ReachFromBlock(body, eng.PathQuery{
 		Target: func(i ssa.Instruction) bool { return isHdr(i) || eng.IsExit(i) },
-		Avoid:  func(i ssa.Instruction) bool { return i == ssa.Instruction(G) },
+		Avoid:  func(i ssa.Instruction) bool { return i == G },
 	}) != nil {
 		return false
 	}
@@ -688,8 +715,8 @@ func c10R2(x *c10x) []c10Acting {
 				ok, why, act := c10CheckOwnerGuard(ci, eng.Args(ci)[0], sp, x.sl)
 				construct := x.nth(fn, "Manager."+eng.CalleeObj(ci).Name()+" guarded by owner test on the same key")
 				x.check("R2", fn, construct, ci.Pos(), ok, why)
-				if ok {
-					acting = append(acting, c10Acting{fn, construct, act, ci.Pos()})
+				for _, a := range act {
+					acting = append(acting, c10Acting{fn, construct, a, ci.Pos()})
 				}
 			case c10IsMgr(ci, "AddWithKey", "Add"):
 				nAdd++
@@ -700,69 +727,83 @@ func c10R2(x *c10x) []c10Acting {
 					continue
 				}
 				key, cluster := args[0], args[1]
-				// an error-returning repository call whose result is known nil here
-				var check *ssa.Call
-				var sum *c10Conflict
-				for _, f := range eng.FactsAt(ci, 2) {
-					if f.Rel.Op != token.EQL {
-						continue
-					}
-					for _, side := range [][2]ssa.Value{{f.X(), f.Y()}, {f.Y(), f.X()}} {
-						cc, ok := side[0].(*ssa.Call)
-						if !ok || !eng.IsNilConst(side[1]) {
-							continue
-						}
-						callee := cc.Call.StaticCallee()
-						if callee == nil || callee.Blocks == nil || callee.Pkg == nil || callee.Pkg.Pkg.Path() != pkgCtrl {
-							continue
-						}
-						s, seen := summaries[callee]
-						if !seen {
-							s = x.conflictSummary(callee, sp)
-							summaries[callee] = s
-							good := s.clusterParam >= 0 && s.edgeErrors
-							uncond := false
-							for _, u := range s.lists {
-								uncond = uncond || u
-							}
-							why := s.why
-							if s.clusterParam < 0 {
-								why = "no error return guarded by `lookup ok && entry.Cluster != acting cluster name` (a name held by another cluster is not refused)"
-							} else if !uncond {
-								why = "no name list is tested element by element unconditionally"
-							}
-							x.check("R2", callee, "conflict check refuses every name held by another cluster", callee.Pos(), good && uncond, why)
-						}
-						if check == nil || (sum.clusterParam < 0 && s.clusterParam >= 0) {
-							check, sum = cc, s
-						}
-					}
-				}
 				c1 := x.nth(fn, "Manager.AddWithKey only after conflict check == nil")
 				c2 := x.nth(fn, "inserted key ∈ names tested by the conflict check")
 				c3 := x.nth(fn, "conflict check is for the inserted cluster")
-				if check == nil || sum.clusterParam < 0 {
+				// In every calling context of the insertion (the insertion itself may have been moved
+				// into a helper whose callers are all known) an error-returning repository call is
+				// known to have returned nil.
+				guarded, covered, same := true, true, true
+				var by *c10Conflict
+				for _, fc := range eng.FactsAtUp(ci, 2) {
+					ch := fc.Chain
+					var check *ssa.Call
+					var sum *c10Conflict
+					for _, f := range fc.Facts {
+						if f.Rel.Op != token.EQL {
+							continue
+						}
+						for _, side := range [][2]ssa.Value{{f.X(), f.Y()}, {f.Y(), f.X()}} {
+							cc, ok := side[0].(*ssa.Call)
+							if !ok || !eng.IsNilConst(side[1]) {
+								continue
+							}
+							callee := cc.Call.StaticCallee()
+							if callee == nil || callee.Blocks == nil || callee.Pkg == nil || callee.Pkg.Pkg.Path() != pkgCtrl {
+								continue
+							}
+							s, seen := summaries[callee]
+							if !seen {
+								s = x.conflictSummary(callee, sp)
+								summaries[callee] = s
+								good := s.clusterParam >= 0 && s.edgeErrors
+								uncond := false
+								for _, u := range s.lists {
+									uncond = uncond || u
+								}
+								why := s.why
+								if s.clusterParam < 0 {
+									why = "no error return guarded by `lookup ok && entry.Cluster != acting cluster name` (a name held by another cluster is not refused)"
+								} else if !uncond {
+									why = "no name list is tested element by element unconditionally"
+								}
+								x.check("R2", callee, "conflict check refuses every name held by another cluster", callee.Pos(), good && uncond, why)
+							}
+							if check == nil || (sum.clusterParam < 0 && s.clusterParam >= 0) {
+								check, sum = cc, s
+							}
+						}
+					}
+					if check == nil || sum.clusterParam < 0 {
+						guarded = false
+						break
+					}
+					by = sum
+					cargs := check.Call.Args
+					cov := false
+					for j, uncond := range sum.lists {
+						if uncond && j < len(cargs) && ch.DerivesFrom(x.sl, key, func(v ssa.Value) bool { return v == cargs[j] }) {
+							cov = true
+						}
+					}
+					covered = covered && cov
+					sm := false
+					if sum.clusterParam < len(cargs) {
+						if b := eng.FieldBase(cargs[sum.clusterParam], c10TCluster, "Cluster"); b != nil && eng.SameValue(ch.Resolve(b), ch.Resolve(cluster)) {
+							sm = true
+						}
+					}
+					same = same && sm
+				}
+				if !guarded || by == nil {
 					c.Fail("R2", fn, c1, ci.Pos(), "the insertion is not dominated by the nil result of a conflict check: AddWithKey overwrites whatever cluster holds the name (history: A owns alias x; B is created with serverNames [x] ⇒ x now resolves to B)")
 					continue
 				}
-				c.Pass("R2", fn, c1, ci.Pos(), "guarded by "+eng.FuncName(sum.fn)+"(…) == nil")
-				cargs := check.Call.Args
-				covered := false
-				for j, uncond := range sum.lists {
-					if uncond && j < len(cargs) && x.sl.DerivesFrom(key, func(v ssa.Value) bool { return v == cargs[j] }) {
-						covered = true
-					}
-				}
+				c.Pass("R2", fn, c1, ci.Pos(), "guarded by "+eng.FuncName(by.fn)+"(…) == nil")
 				x.check("R2", fn, c2, ci.Pos(), covered, "the inserted key is not an element of a list that the conflict check tests name by name: the name actually written was never checked against its current holder")
-				same := false
-				if sum.clusterParam < len(cargs) {
-					if b := eng.FieldBase(cargs[sum.clusterParam], c10TCluster, "Cluster"); b != nil && eng.SameValue(b, cluster) {
-						same = true
-					}
-				}
 				x.check("R2", fn, c3, ci.Pos(), same, "the conflict check is not given the .Cluster name of the cluster being inserted: ownership is tested for one cluster and the name handed to another")
 				if same {
-					acting = append(acting, c10Acting{sum.fn, "conflict check: acting cluster name", sum.fn.Params[sum.clusterParam], sum.fn.Pos()})
+					acting = append(acting, c10Acting{by.fn, "conflict check: acting cluster name", by.fn.Params[by.clusterParam], by.fn.Pos()})
 				}
 			}
 		}
@@ -781,6 +822,8 @@ func c10R2(x *c10x) []c10Acting {
 func c10R2n(x *c10x, acting []c10Acting) {
 	c := x.c
 	norm := []string{"tolower", "clusterfield", "servernames"}
+	// one obligation per guarded site; a site reached in several calling contexts contributes
+	// the operand of each context
 	seen := map[string]bool{}
 	for _, a := range acting {
 		k := eng.FuncName(a.fn) + "|" + a.what
@@ -788,7 +831,12 @@ func c10R2n(x *c10x, acting []c10Acting) {
 			continue
 		}
 		seen[k] = true
-		os := x.origins(a.v, 3)
+		var os []c10Origin
+		for _, b := range acting {
+			if eng.FuncName(b.fn)+"|"+b.what == k {
+				os = append(os, x.origins(b.v, 3)...)
+			}
+		}
 		ok, why := c10Only(os, norm...)
 		construct := "acting cluster name is lower-cased: " + a.what
 		switch {
@@ -1197,15 +1245,17 @@ func (x *c10x) removesKey(fn *ssa.Function, depth int) (bool, string) {
 
 func c10R5(x *c10x) {
 	c := x.c
-	isStopCall := func(v ssa.Value) bool { cc, _ := eng.CallResultOf(v); return cc != nil }
-	// resultOf: every origin of v (stopping at call results) is result #idx of a call to name
-	resultOf := func(v ssa.Value, idx int, name string) []*ssa.Call {
+	// producersIn: every origin of v is result #idx of a call to name; the calls are returned
+	// (nil if some origin is anything else). Calls of repository helpers are looked through by
+	// the slicer (a lookup chain moved into a helper); a nil pointer carries no material and is
+	// not an origin.
+	producersIn := func(ch eng.UpChain, v ssa.Value, idx int, name string) []*ssa.Call {
+		isTarget := func(u ssa.Value) bool { cc, _ := eng.CallResultOf(u); return cc != nil && eng.IsCall(cc, name) }
 		var out []*ssa.Call
-		leaves := x.sl.Leaves(v, isStopCall)
-		if len(leaves) == 0 {
-			return nil
-		}
-		for _, l := range leaves {
+		for _, l := range ch.Leaves(x.sl, v, isTarget) {
+			if eng.IsNilConst(l) {
+				continue
+			}
 			cc, i := eng.CallResultOf(l)
 			if cc == nil || i != idx || !eng.IsCall(cc, name) {
 				return nil
@@ -1214,6 +1264,7 @@ func c10R5(x *c10x) {
 		}
 		return out
 	}
+	resultOf := func(v ssa.Value, idx int, name string) []*ssa.Call { return producersIn(nil, v, idx, name) }
 	okOf := func(site ssa.Instruction, call *ssa.Call, idx int) bool {
 		for _, f := range eng.FactsAt(site, 1) {
 			for _, s := range [][2]ssa.Value{{f.X(), f.Y()}, {f.Y(), f.X()}} {
@@ -1229,46 +1280,76 @@ func c10R5(x *c10x) {
 	ownCfg := map[string]string{"ClientCAs": "clientCA", "Certificates": "certs"}
 
 	// (a) controller: fields copied into the handshake config
-	// … in per-handshake callbacks func(*tls.ClientHelloInfo) (*tls.Config, error) of the controller package
-	var handshake []*ssa.Function
-	for _, fn := range c.W.FuncsOf(pkgCtrl) {
-		sig := fn.Signature
-		if sig.Params().Len() == 1 && eng.TypeName(sig.Params().At(0).Type()) == "crypto/tls.ClientHelloInfo" &&
-			sig.Results().Len() == 2 && eng.TypeName(sig.Results().At(0).Type()) == c10TTLSConf {
-			handshake = append(handshake, eng.WithClosures(fn)...)
+	// … in per-handshake callbacks func(*tls.ClientHelloInfo) (*tls.Config, error) of the controller
+	// package. The body of such a callback may be spread over helpers (the closure forwarding to a
+	// method, the copy moved into a function): its Region is scanned, every store is decided in
+	// every calling context and reported against the callback.
+	inOf := func(fc eng.FactCtx) (func(v ssa.Value, idx int, name string) []*ssa.Call, func(call *ssa.Call, idx int) bool) {
+		res := func(v ssa.Value, idx int, name string) []*ssa.Call { return producersIn(fc.Chain, v, idx, name) }
+		known := func(call *ssa.Call, idx int) bool {
+			for _, f := range fc.Facts {
+				for _, s := range [][2]ssa.Value{{f.X(), f.Y()}, {f.Y(), f.X()}} {
+					cc, i := eng.CallResultOf(s[0])
+					if cc == call && i == idx && ((f.Rel.Op == token.EQL && eng.IsBoolConst(s[1], true)) || (f.Rel.Op == token.NEQ && eng.IsBoolConst(s[1], false))) {
+						return true
+					}
+				}
+			}
+			return false
 		}
+		return res, known
 	}
 	nCopy := 0
-	for _, field := range []string{"ClientCAs", "Certificates"} {
-		for _, st := range eng.StoresToField(handshake, c10TTLSConf, field) {
-			nCopy++
-			fn := st.Parent()
-			construct := x.nth(fn, "tls.Config."+field+" copied from LoadTLSConfig() of Get(SNI host)")
-			base := eng.FieldBase(st.Val, c10TTLSConf, field)
-			if base == nil {
-				c.Fail("R5", fn, construct, st.Pos(), "the value is not the "+field+" field of a tls.Config")
-				continue
+	scanned := map[*ssa.Function]bool{}
+	for _, hs := range c.W.FuncsOf(pkgCtrl) {
+		sig := hs.Signature
+		if !(sig.Params().Len() == 1 && eng.TypeName(sig.Params().At(0).Type()) == "crypto/tls.ClientHelloInfo" &&
+			sig.Results().Len() == 2 && eng.TypeName(sig.Results().At(0).Type()) == c10TTLSConf) {
+			continue
+		}
+		var region []*ssa.Function
+		for _, f := range c.W.Region(hs) {
+			if !scanned[f] {
+				scanned[f] = true
+				region = append(region, f)
 			}
-			loads := resultOf(base, 0, "(*"+c10TCluster+").LoadTLSConfig")
-			ok, why := len(loads) > 0, "the "+field+" handed to the handshake are not read from the result of ClusterInfo.LoadTLSConfig(): clients of this host are verified against / served with material that is not the cluster's"
-			for _, l := range loads {
-				if !okOf(st, l, 1) {
-					ok, why = false, "LoadTLSConfig()'s ok result is not known true where its config is used"
+		}
+		for _, field := range []string{"ClientCAs", "Certificates"} {
+			for _, st := range eng.StoresToField(region, c10TTLSConf, field) {
+				nCopy++
+				construct := x.nth(hs, "tls.Config."+field+" copied from LoadTLSConfig() of Get(SNI host)")
+				base := eng.FieldBase(st.Val, c10TTLSConf, field)
+				if base == nil {
+					c.Fail("R5", hs, construct, st.Pos(), "the value is not the "+field+" field of a tls.Config")
+					continue
 				}
-				gets := resultOf(eng.Receiver(l), 0, getName)
-				if len(gets) == 0 {
-					ok, why = false, "LoadTLSConfig() is not called on the cluster returned by Manager.Get"
-				}
-				for _, g := range gets {
-					if !okOf(st, g, 1) {
-						ok, why = false, "Manager.Get's ok result is not known true where the cluster is used"
+				ok, why := true, ""
+				for _, fc := range eng.FactsAtUp(st, 2) {
+					resIn, knownIn := inOf(fc)
+					loads := resIn(base, 0, "(*"+c10TCluster+").LoadTLSConfig")
+					if len(loads) == 0 {
+						ok, why = false, "the "+field+" handed to the handshake are not read from the result of ClusterInfo.LoadTLSConfig(): clients of this host are verified against / served with material that is not the cluster's"
 					}
-					if o, w := c10Only(x.origins(eng.Args(g)[0], 0), "sni", "splithost"); !o {
-						ok, why = false, "the cluster is not looked up under the handshake's own host (TLS ServerName, or the local address when no SNI was sent): "+w
+					for _, l := range loads {
+						if !knownIn(l, 1) {
+							ok, why = false, "LoadTLSConfig()'s ok result is not known true where its config is used"
+						}
+						gets := resIn(eng.Receiver(l), 0, getName)
+						if len(gets) == 0 {
+							ok, why = false, "LoadTLSConfig() is not called on the cluster returned by Manager.Get"
+						}
+						for _, g := range gets {
+							if !knownIn(g, 1) {
+								ok, why = false, "Manager.Get's ok result is not known true where the cluster is used"
+							}
+							if o, w := c10Only(x.origins(eng.Args(g)[0], 2), "sni", "splithost"); !o {
+								ok, why = false, "the cluster is not looked up under the handshake's own host (TLS ServerName, or the local address when no SNI was sent): "+w
+							}
+						}
 					}
 				}
+				x.check("R5", hs, construct, st.Pos(), ok, why)
 			}
-			x.check("R5", fn, construct, st.Pos(), ok, why)
 		}
 	}
 	if nCopy == 0 {
